@@ -74,6 +74,9 @@ type EvGen struct {
 	n        int
 	cardPool int
 	prefix   string
+	// wholeLeft: agg family - how many more events carry a whole-number `f` (runs of events, hence whole batches
+	// and segments, in which a fractional measure holds integers only)
+	wholeLeft int
 }
 
 var families = []string{"flat", "nested", "mixed", "sparse", "card", "long", "numeric"}
